@@ -330,10 +330,11 @@ pub fn explore_threads(space: &Space, cfg: &RunCfg, start: u64, end: u64, pubwor
 // Subprocess isolation
 // ---------------------------------------------------------------------------
 
-/// Child side: run the index range [start,end) of `space` with stride `stride`
-/// (idx = start + k*stride) single-threaded, publishing idx+1 in the shared word
-/// before each case; print the report as one JSON line on stdout.
-pub fn child_main(space: &Space, prop: &str, start: u64, stride: u64, shm_path: &str, deadline: Instant) {
+/// Child side of an isolated exploration. All children of one space share one memory block:
+/// word 0 is the next free index (chunks are claimed with fetch_add, so the load balances itself),
+/// words 8+4k.. belong to child k: [running index + 1, cases done, "all done" flag, end of the
+/// claimed chunk]. `resume` = the unfinished rest of a chunk whose case killed a predecessor.
+pub fn child_main(space: &Space, prop: &str, k: usize, chunk: u64, resume: (u64, u64), shm_path: &str, deadline: Instant) {
     let shm = Shm::open(shm_path).expect("shm");
     // a runaway allocation must fail fast (and be attributed to the case), not eat the machine
     unsafe {
@@ -342,25 +343,38 @@ pub fn child_main(space: &Space, prop: &str, start: u64, stride: u64, shm_path: 
         let core = libc::rlimit { rlim_cur: 0, rlim_max: 0 };
         libc::setrlimit(libc::RLIMIT_CORE, &core);
     }
+    let base = 8 + 4 * k;
     let sp = sample_points(space.n);
     let mut ctx = Ctx::new(&space.name);
-    let mut idx = start;
     let mut cases = 0u64;
     let mut cap = false;
-    while idx < space.n {
-        shm.store(0, idx + 1);
-        shm.store(1, cases);
-        ctx.want_sample = sp.contains(&idx);
-        run_one(space, idx, &mut ctx, prop);
-        cases += 1;
-        idx += stride;
-        if cases % 64 == 0 && Instant::now() > deadline {
-            cap = idx < space.n;
+    let mut run_range = |a: u64, b: u64, ctx: &mut Ctx, cases: &mut u64| {
+        shm.store(base + 3, b);
+        for idx in a..b {
+            shm.store(base, idx + 1);
+            shm.store(base + 1, *cases);
+            ctx.want_sample = sp.contains(&idx);
+            run_one(space, idx, ctx, prop);
+            *cases += 1;
+        }
+        shm.store(base, 0);
+    };
+    if resume.1 > resume.0 {
+        run_range(resume.0, resume.1.min(space.n), &mut ctx, &mut cases);
+    }
+    loop {
+        let a = shm.fetch_add(0, chunk);
+        if a >= space.n {
+            break;
+        }
+        run_range(a, (a + chunk).min(space.n), &mut ctx, &mut cases);
+        if Instant::now() > deadline {
+            cap = true;
             break;
         }
     }
-    shm.store(2, 1); // all cases of this shard ran; what follows is only reporting
-    shm.store(0, 0);
+    shm.store(base + 1, cases);
+    shm.store(base + 2, 1); // everything this child claimed has run; what follows is only reporting
     let mut rep = Report::default();
     rep.absorb_ctx(ctx);
     rep.cases = cases;
@@ -426,14 +440,14 @@ unsafe impl Sync for Shm {}
 
 impl Shm {
     pub fn create(path: &str) -> std::io::Result<Shm> {
-        std::fs::write(path, [0u8; 64])?;
+        std::fs::write(path, vec![0u8; 4096])?;
         Self::open(path)
     }
     pub fn open(path: &str) -> std::io::Result<Shm> {
         use std::os::unix::io::AsRawFd;
         let f = std::fs::OpenOptions::new().read(true).write(true).open(path)?;
         let p = unsafe {
-            libc::mmap(std::ptr::null_mut(), 64, libc::PROT_READ | libc::PROT_WRITE, libc::MAP_SHARED, f.as_raw_fd(), 0)
+            libc::mmap(std::ptr::null_mut(), 4096, libc::PROT_READ | libc::PROT_WRITE, libc::MAP_SHARED, f.as_raw_fd(), 0)
         };
         if p == libc::MAP_FAILED {
             return Err(std::io::Error::last_os_error());
@@ -443,50 +457,52 @@ impl Shm {
     pub fn store(&self, w: usize, v: u64) {
         unsafe { (*(self.ptr.add(w) as *const AtomicU64)).store(v, Ordering::SeqCst) }
     }
+    pub fn fetch_add(&self, w: usize, v: u64) -> u64 {
+        unsafe { (*(self.ptr.add(w) as *const AtomicU64)).fetch_add(v, Ordering::SeqCst) }
+    }
     pub fn load(&self, w: usize) -> u64 {
         unsafe { (*(self.ptr.add(w) as *const AtomicU64)).load(Ordering::SeqCst) }
     }
 }
 
-fn done_cases_of(shm: &Shm) -> u64 {
-    shm.load(1)
-}
-
-/// Parent side of the isolated exploration: `procs` children, child k runs idx ≡ k (mod procs).
-/// A child that dies on a signal yields a violation for the published index and is restarted
-/// behind it.
+/// Parent side of the isolated exploration: `procs` children share an index counter. A child
+/// that dies on a signal yields a violation for the index it had published; it is replaced by a
+/// new child that first finishes the rest of the dead child's chunk.
 pub fn explore_isolated(space: &Space, cfg: &RunCfg, space_ordinal: usize, child_args: &[String]) -> Report {
+    use std::os::unix::process::ExitStatusExt;
     use std::process::{Command, Stdio};
-    let procs = cfg.threads.max(1) as u64;
+    let procs = (cfg.threads.max(1) as u64).min(space.n.max(1)).min(200);
     let exe = std::env::current_exe().expect("current_exe");
     let tmpdir = std::env::var("FIRMC_TMP").unwrap_or_else(|_| "/verif/.target/tmp".into());
     std::fs::create_dir_all(&tmpdir).ok();
+    let shm_path = format!("{}/shm_{}_{}", tmpdir, std::process::id(), space_ordinal);
+    let shm = Shm::create(&shm_path).expect("create shm");
+    let chunk: u64 = (space.n / (procs * 64)).clamp(1, 256);
     let mut total = Report::default();
-    total.planned = space.n;
+    let shm_ref = &shm;
+    let shm_path_ref = &shm_path;
     let reports: Vec<Report> = std::thread::scope(|s| {
-        let hs: Vec<_> = (0..procs.min(space.n.max(1)))
+        let hs: Vec<_> = (0..procs as usize)
             .map(|k| {
                 let exe = exe.clone();
-                let tmpdir = tmpdir.clone();
                 s.spawn(move || {
                     let mut rep = Report::default();
-                    let shm_path = format!("{}/shm_{}_{}_{}", tmpdir, std::process::id(), space_ordinal, k);
-                    let shm = Shm::create(&shm_path).expect("create shm");
-                    let mut start = k;
+                    let base = 8 + 4 * k;
+                    let mut resume = (0u64, 0u64);
                     let mut restarts = 0;
-                    while start < space.n {
+                    loop {
                         let remaining = cfg.deadline.saturating_duration_since(Instant::now());
                         if remaining.is_zero() {
                             rep.cap_hit = true;
                             break;
                         }
-                        shm.store(0, 0);
-                        shm.store(1, 0);
-                        shm.store(2, 0);
+                        for w in 0..4 {
+                            shm_ref.store(base + w, 0);
+                        }
                         let out = Command::new(&exe)
                             .args(child_args)
                             .arg("--child")
-                            .arg(format!("{}:{}:{}:{}:{}", space_ordinal, start, procs, shm_path, remaining.as_millis()))
+                            .arg(format!("{}:{}:{}:{}:{}:{}:{}", space_ordinal, k, chunk, resume.0, resume.1, remaining.as_millis(), shm_path_ref))
                             .stdin(Stdio::null())
                             .stderr(Stdio::null())
                             .env("RUST_BACKTRACE", "0")
@@ -499,63 +515,49 @@ pub fn explore_isolated(space: &Space, cfg: &RunCfg, space_ordinal: usize, child
                             rep.merge(report_from_json(&v));
                             break;
                         }
-                        // died: attribute to the published index
-                        let published = shm.load(0);
-                        let done_cases = shm.load(1);
-                        use std::os::unix::process::ExitStatusExt;
+                        let published = shm_ref.load(base);
+                        let done_cases = shm_ref.load(base + 1);
                         let signal = out.status.signal();
-                        if published == 0 && shm.load(2) == 1 {
-                            // every case of the shard ran, then the child died while freeing memory /
-                            // printing its report: an earlier case of this shard corrupted the heap
-                            use std::os::unix::process::ExitStatusExt;
-                            let sig = format!("{}|crash|signal {:?} after the last case of a shard (memory corrupted by an earlier case)", cfg.prop, out.status.signal());
+                        let signame = match signal {
+                            Some(11) => "SIGSEGV".to_string(),
+                            Some(6) => "SIGABRT".to_string(),
+                            Some(7) => "SIGBUS".to_string(),
+                            Some(4) => "SIGILL".to_string(),
+                            Some(s) => format!("signal{}", s),
+                            None => format!("exit{}", out.status.code().unwrap_or(-1)),
+                        };
+                        if published == 0 && shm_ref.load(base + 2) == 1 {
+                            // every claimed case ran, then the child died while freeing memory / printing
+                            // its report: an earlier case of this child corrupted the heap
+                            let sig = format!("{}|crash|{} after the last case of a child (memory corrupted by an earlier case)", cfg.prop, signame);
                             *rep.sig_counts.entry(sig.clone()).or_insert(0) += 1;
-                            rep.cases += done_cases_of(&shm);
+                            rep.cases += done_cases;
                             rep.crashes += 1;
-                            rep.viols.push(Viol { space: space.name.clone(), idx: start, sig, detail: json!({"shard_first_index": start, "stride": procs, "status": format!("{:?}", out.status), "note": "the shard's own verdicts were lost with the child; see the other shards / run the shard single-stepped"}) });
+                            rep.viols.push(Viol { space: space.name.clone(), idx: 0, sig, detail: json!({"child": k, "cases_run_by_the_child": done_cases, "status": format!("{:?}", out.status), "note": "the child's own verdicts were lost with it"}) });
                             break;
                         }
                         if published == 0 {
-                            // died outside a case (startup / report) -> machinery error
-                            eprintln!(
-                                "MACHINERY-ERROR child of space {} died outside a case: status {:?}",
-                                space.name, out.status
-                            );
+                            // died before / between cases without having finished: machinery error
+                            eprintln!("MACHINERY-ERROR child {} of space {} died outside a case: status {:?}", k, space.name, out.status);
                             rep.notes.insert("machinery_errors".into(), 1);
                             break;
                         }
                         let idx = published - 1;
                         rep.cases += done_cases + 1;
                         rep.crashes += 1;
-                        let sig = format!(
-                            "{}|crash|{}",
-                            cfg.prop,
-                            match signal {
-                                Some(11) => "SIGSEGV".to_string(),
-                                Some(6) => "SIGABRT".to_string(),
-                                Some(7) => "SIGBUS".to_string(),
-                                Some(4) => "SIGILL".to_string(),
-                                Some(s) => format!("signal{}", s),
-                                None => format!("exit{}", out.status.code().unwrap_or(-1)),
-                            }
-                        );
+                        let sig = format!("{}|crash|{}", cfg.prop, signame);
                         *rep.sig_counts.entry(sig.clone()).or_insert(0) += 1;
-                        rep.viols.push(Viol {
-                            space: space.name.clone(),
-                            idx,
-                            sig,
-                            detail: json!({"crashed_case_index": idx, "status": format!("{:?}", out.status), "needs_describe": true}),
-                        });
-                        start = idx + procs;
+                        rep.viols.push(Viol { space: space.name.clone(), idx, sig, detail: json!({"crashed_case_index": idx, "status": format!("{:?}", out.status)}) });
+                        // the successor first finishes the rest of the dead child's chunk
+                        resume = (idx + 1, shm_ref.load(base + 3));
                         restarts += 1;
                         if restarts > 25 {
                             // the verdict is clear; do not spend minutes re-spawning children
                             rep.cap_hit = true;
-                            rep.notes.insert("isolated shards stopped after 25 crashes".into(), 1);
+                            rep.notes.insert("isolated children stopped after 25 crashes".into(), 1);
                             break;
                         }
                     }
-                    std::fs::remove_file(&shm_path).ok();
                     rep
                 })
             })
@@ -565,6 +567,7 @@ pub fn explore_isolated(space: &Space, cfg: &RunCfg, space_ordinal: usize, child
     for r in reports {
         total.merge(r);
     }
+    std::fs::remove_file(&shm_path).ok();
     total.planned = space.n;
     if total.cases < space.n {
         total.cap_hit = true;
